@@ -6,6 +6,7 @@ The oracle spells chosen field values with the reference encoder
 parser_spec); a monitor on TimePointParser.parse compares what the real
 parser returned (or raised) with the fields that were spelled."""
 import os
+import zlib
 import time as _time
 from fractions import Fraction as F
 from unittest import mock
@@ -37,6 +38,15 @@ ASSUMPTIONS = [
 MODE = "gregorian"
 
 
+# texts of every family of date form (complete, reduced incl. century-only,
+# expanded, truncated, week/ordinal), read by a parser before the case's own
+PRIMERS = ("", "+0019", "-0019", "19", "+001985", "1985-04", "1985", "85",
+           "-8504", "-85", "--0412", "---12", "-W155", "-W-5", "1985-W15",
+           "1985W155", "1985102", "-102", "T1015", "T-15", "+0019850412",
+           "-001985-102", "1985-04-12T10:15:30+04:00", "19850412T101530Z",
+           "garbage", "")
+
+
 class _Cfg:
     """parser configurations (JSON-able key -> real parser, cached)"""
 
@@ -50,7 +60,16 @@ class _Cfg:
             kw = dict(key)
             if kw.get("assumed_time_zone") is not None:
                 kw["assumed_time_zone"] = tuple(kw["assumed_time_zone"])
-            self.cache[k] = self.repo.parsers.TimePointParser(**kw)
+            if len(k) % 3 == 0:
+                # the documented positional order of the constructor
+                self.cache[k] = self.repo.parsers.TimePointParser(
+                    kw.get("num_expanded_year_digits", 2),
+                    kw.get("allow_truncated", False),
+                    kw.get("allow_only_basic", False),
+                    kw.get("assumed_time_zone"),
+                    kw.get("default_to_unknown_time_zone", False))
+            else:
+                self.cache[k] = self.repo.parsers.TimePointParser(**kw)
         return self.cache[k]
 
 
@@ -590,7 +609,20 @@ def _run_case(ctx, repo, case):
             if not use_real_tz:
                 patcher = mock.patch.object(repo.timezone, "time", m)
                 patcher.start()
+            primer = case.get("primer")
+            if primer is None and case["expect"].get("kind") != "reject":
+                primer = PRIMERS[zlib.crc32(case["text"].encode()) %
+                                 len(PRIMERS)]
             for dap in (False, True):
+                if primer:
+                    # what the same parser object read just before must not
+                    # matter (whether it understood it or not)
+                    e, ctx.expect = ctx.expect, None
+                    try:
+                        parser.parse(primer)
+                    except ValueError:
+                        pass
+                    ctx.expect = e
                 try:
                     parser.parse(case["text"], dump_as_parsed=dap)
                 except ValueError:
